@@ -26,7 +26,7 @@ ASSUMPTIONS = [
 ]
 COMPONENTS = {"real": ["pyxel exposure/run_pipeline/containers/ModelGroup debug capture", "xarray"], "stub": []}
 BUDGET = {"quick": {"n": 480, "wall": 100, "determinism": 4}, "thorough": {"n": 12000, "wall": 1500, "determinism": 12}}
-REQUIRED_REACH = ["debug_runs", "photon3d_runs", "flat_layout_compared", "scene_runs", "data_runs", "image_dtype:uint8", "image_dtype:uint64", "float_dtype:float16", "multi_step"]
+REQUIRED_REACH = ["inplace_photon_add", "clusters_written", "debug_runs", "photon3d_runs", "flat_layout_compared", "scene_runs", "data_runs", "image_dtype:uint8", "image_dtype:uint64", "float_dtype:float16", "multi_step"]
 
 IMG = ("uint8", "uint16", "uint32", "uint64")
 FLT = ("float16", "float32", "float64")
@@ -52,6 +52,9 @@ def generate(rng, tier):
         a = m["arguments"]
         w = a.get("write") or []
         w = ["photon3d" if (b in ("photon", "photon3d") and p3) else ("photon" if b == "photon3d" else b) for b in w]
+        w = [(b + "+") if (b in ("photon", "photon3d") and rng.random() < 0.4) else b for b in w]
+        if rng.random() < 0.15:
+            w.append("clusters")
         if rng.random() < 0.15:
             w.append("scene")
         if rng.random() < 0.2:
@@ -132,7 +135,7 @@ def _check_tree(scn, rec, layout, viol, stats):
     ds = bk.to_dataset()
     exp_time = [float(start) + float(t) for t in times]
     for b in ("photon", "charge", "pixel", "signal", "image"):
-        init = (b in written) or (b == "photon" and "photon3d" in written)
+        init = (b in written) or (b == "photon" and written & {"photon3d", "photon+", "photon3d+"}) or (b == "charge" and "clusters" in written)
         if not init:
             continue
         if b not in ds.data_vars:
@@ -239,8 +242,12 @@ def execute(scn):
                     viol.append({"clause": "C03.layouts", "signature": f"C03.layouts@{name}", "detail": "flat and hierarchical layouts (and debug on/off) carry different values"})
             elif name in ("photon", "pixel", "signal", "image", "charge"):
                 viol.append({"clause": "C03.layouts", "signature": f"C03.layouts-missing@{name}", "detail": "bucket present in hierarchical layout only"})
-    if "photon3d" in written:
+    if written & {"photon3d", "photon3d+"}:
         stats["photon3d_runs"] = 1
+    if written & {"photon+", "photon3d+"}:
+        stats["inplace_photon_add"] = 1
+    if "clusters" in written:
+        stats["clusters_written"] = 1
     if len(times) > 1:
         stats["multi_step"] = 1
     idt = next((m["arguments"]["image_dtype"] for _, m in ref.enabled_models(scn["pipeline"])), "uint16")
